@@ -77,7 +77,7 @@ func main() {
 }
 
 func solverCfg(verif, tier, tag string) *SolverCfg {
-	cfg := &SolverCfg{FirstTimeout: 3 * time.Second, FullTimeout: 20 * time.Second, Workers: 16,
+	cfg := &SolverCfg{FirstTimeout: 3 * time.Second, FullTimeout: 40 * time.Second, Workers: 16,
 		NoBatch: true, WorkDir: fmt.Sprintf("%s/govc-work/%s-%d", os.TempDir(), tag, os.Getpid())}
 	if tier == "thorough" {
 		cfg.FullTimeout = 60 * time.Second
